@@ -112,37 +112,46 @@ theorem linkChild_name {t c t' : TNode} (h : linkChild t c = some t') : t'.name 
   · cases h
   · cases h; rfl
 
-theorem addPath_name (d : Defaults) (e : Ent) (x : Extra) :
-    ∀ (p : Path) (t t' : TNode), addPath d e x p t = some t' → t'.name = t.name
-  | [], t, t', h => by
-    simp only [addPath] at h; exact overwrite_name h
-  | [n], t, t', h => by
-    simp only [addPath] at h
-    split at h
-    · cases h
-    · split at h
-      · split at h
-        · cases h
-        · cases h; rfl
-      · exact linkChild_name h
-  | n :: m :: rest, t, t', h => by
-    simp only [addPath] at h
-    split at h
-    · cases h
-    · split at h
-      · split at h
-        · cases h
-        · cases h; rfl
-      · split at h
-        · cases h
-        · exact linkChild_name h
+theorem mknode_name {depth : Nat} {t t' : TNode} {n : Name} {e : Ent} {x : Extra} (h : mknode depth t n e x = some t') :
+    t'.name = t.name := by
+  simp only [mknode] at h
+  split at h
+  · cases h
+  · exact linkChild_name h
 
-theorem addPath_allSorted (d : Defaults) (e : Ent) (x : Extra) :
-    ∀ (p : Path) (t t' : TNode), t.AllSorted → addPath d e x p t = some t' → t'.AllSorted
-  | [], t, t', ht, h => by
-    simp only [addPath] at h; exact overwrite_allSorted ht h
-  | [n], t, t', ht, h => by
-    simp only [addPath] at h
+theorem addPathAt_name (d : Defaults) (e : Ent) (x : Extra) :
+    ∀ (p : Path) (depth : Nat) (t t' : TNode), addPathAt d e x depth p t = some t' → t'.name = t.name
+  | [], depth, t, t', h => by
+    simp only [addPathAt] at h; exact overwrite_name h
+  | [n], depth, t, t', h => by
+    simp only [addPathAt] at h
+    split at h
+    · cases h
+    · split at h
+      · split at h
+        · cases h
+        · cases h; rfl
+      · exact mknode_name h
+  | n :: m :: rest, depth, t, t', h => by
+    simp only [addPathAt] at h
+    split at h
+    · cases h
+    · split at h
+      · split at h
+        · cases h
+        · cases h; rfl
+      · split at h
+        · cases h
+        · split at h
+          · cases h
+          · exact linkChild_name h
+
+theorem addPathAt_allSorted (d : Defaults) (e : Ent) (x : Extra) :
+    ∀ (p : Path) (depth : Nat) (t t' : TNode), t.AllSorted → addPathAt d e x depth p t = some t' → t'.AllSorted
+  | [], depth, t, t', ht, h => by
+    simp only [addPathAt] at h; exact overwrite_allSorted ht h
+  | [n], depth, t, t', ht, h => by
+    simp only [addPathAt] at h
     split at h
     · cases h
     · split at h
@@ -154,9 +163,12 @@ theorem addPath_allSorted (d : Defaults) (e : Ent) (x : Extra) :
           have hcs : c.AllSorted := ((TNode.allSorted_iff t).mp ht).2 c (childByName_mem hc)
           exact allSorted_replace ht (overwrite_allSorted hcs hov)
       · rename_i hc
-        exact allSorted_link ht (leaf_allSorted _ _) hc h
-  | n :: m :: rest, t, t', ht, h => by
-    simp only [addPath] at h
+        simp only [mknode] at h
+        split at h
+        · cases h
+        · exact allSorted_link ht (leaf_allSorted _ _) hc h
+  | n :: m :: rest, depth, t, t', ht, h => by
+    simp only [addPathAt] at h
     split at h
     · cases h
     · split at h
@@ -166,22 +178,40 @@ theorem addPath_allSorted (d : Defaults) (e : Ent) (x : Extra) :
         · rename_i c' hrec
           cases h
           have hcs : c.AllSorted := ((TNode.allSorted_iff t).mp ht).2 c (childByName_mem hc)
-          exact allSorted_replace ht (addPath_allSorted d e x (m :: rest) c c' hcs hrec)
+          exact allSorted_replace ht (addPathAt_allSorted d e x (m :: rest) _ c c' hcs hrec)
       · rename_i hc
         split at h
         · cases h
-        · rename_i c' hrec
-          have hfresh := leaf_allSorted n { mknodeAttr (implicitEnt d) Extra.none with implicit := true }
-          have hc' := addPath_allSorted d e x (m :: rest) _ c' hfresh hrec
-          have hn : c'.name = n := addPath_name d e x _ _ _ hrec
-          exact allSorted_link ht hc' (by rw [hn]; exact hc) h
+        · split at h
+          · cases h
+          · rename_i c' hrec
+            have hfresh := leaf_allSorted n { mknodeAttr (implicitEnt d) Extra.none with implicit := true }
+            have hc' := addPathAt_allSorted d e x (m :: rest) _ _ c' hfresh hrec
+            have hn : c'.name = n := addPathAt_name d e x _ _ _ _ hrec
+            exact allSorted_link ht hc' (by rw [hn]; exact hc) h
 
-theorem mkdirImplicit_allSorted (d : Defaults) :
-    ∀ (p : Path) (t t' : TNode), t.AllSorted → mkdirImplicit d p t = some t' → t'.AllSorted ∧ t'.name = t.name
-  | [], t, t', ht, h => by
-    simp only [mkdirImplicit] at h; cases h; exact ⟨ht, rfl⟩
-  | n :: rest, t, t', ht, h => by
-    simp only [mkdirImplicit] at h
+theorem addPath_allSorted (d : Defaults) (e : Ent) (x : Extra) (p : Path) (t t' : TNode) (ht : t.AllSorted)
+    (h : addPath d e x p t = some t') : t'.AllSorted :=
+  addPathAt_allSorted d e x p 0 t t' ht h
+
+theorem addGeneric_allSorted {d : Defaults} {e : Ent} {x : Extra} {t t' : TNode} (ht : t.AllSorted)
+    (h : addGeneric d e x t = some t') : t'.AllSorted := by
+  simp only [addGeneric] at h
+  split at h
+  · cases h
+  · split at h
+    · cases h
+    · split at h
+      · cases h
+      · exact addPath_allSorted d e x _ t t' ht h
+
+theorem mkdirImplicitAt_allSorted (d : Defaults) :
+    ∀ (p : Path) (depth : Nat) (t t' : TNode), t.AllSorted → mkdirImplicitAt d depth p t = some t' →
+      t'.AllSorted ∧ t'.name = t.name
+  | [], depth, t, t', ht, h => by
+    simp only [mkdirImplicitAt] at h; cases h; exact ⟨ht, rfl⟩
+  | n :: rest, depth, t, t', ht, h => by
+    simp only [mkdirImplicitAt] at h
     split at h
     · cases h
     · split at h
@@ -191,15 +221,21 @@ theorem mkdirImplicit_allSorted (d : Defaults) :
         · rename_i c' hrec
           cases h
           have hcs : c.AllSorted := ((TNode.allSorted_iff t).mp ht).2 c (childByName_mem hc)
-          exact ⟨allSorted_replace ht (mkdirImplicit_allSorted d rest c c' hcs hrec).1, rfl⟩
+          exact ⟨allSorted_replace ht (mkdirImplicitAt_allSorted d rest _ c c' hcs hrec).1, rfl⟩
       · rename_i hc
         split at h
         · cases h
-        · rename_i c' hrec
-          have hfresh := leaf_allSorted n { mknodeAttr (implicitEnt d) Extra.none with implicit := true }
-          have hc' := mkdirImplicit_allSorted d rest _ c' hfresh hrec
-          have hn : c'.name = n := hc'.2
-          exact ⟨allSorted_link ht hc'.1 (by rw [hn]; exact hc) h, linkChild_name h⟩
+        · split at h
+          · cases h
+          · rename_i c' hrec
+            have hfresh := leaf_allSorted n { mknodeAttr (implicitEnt d) Extra.none with implicit := true }
+            have hc' := mkdirImplicitAt_allSorted d rest _ _ c' hfresh hrec
+            have hn : c'.name = n := hc'.2
+            exact ⟨allSorted_link ht hc'.1 (by rw [hn]; exact hc) h, linkChild_name h⟩
+
+theorem mkdirImplicit_allSorted (d : Defaults) (p : Path) (t t' : TNode) (ht : t.AllSorted)
+    (h : mkdirImplicit d p t = some t') : t'.AllSorted ∧ t'.name = t.name :=
+  mkdirImplicitAt_allSorted d p 0 t t' ht h
 
 theorem scanStep_allSorted {d : Defaults} {cfg : Cfg} {e : Ent} {hl : Option Path} {tg : List UInt8} {t t' : TNode}
     {links links' : List Path} {ig : Bool} (ht : t.AllSorted) (h : scanStep d cfg e hl tg t links = some (t', links', ig)) :
@@ -211,7 +247,7 @@ theorem scanStep_allSorted {d : Defaults} {cfg : Cfg} {e : Ent} {hl : Option Pat
     · cases h
     · rename_i t1 hadd
       cases h
-      exact addPath_allSorted d e _ _ _ _ ht hadd
+      exact addGeneric_allSorted ht hadd
 
 mutual
 theorem walkNode_allSorted (d : Defaults) (cfg : Cfg) (fnm : Fnm) :
@@ -223,14 +259,16 @@ theorem walkNode_allSorted (d : Defaults) (cfg : Cfg) (fnm : Fnm) :
     · cases h; exact ht
     · split at h
       · cases h
-      · rename_i tree' links' ignored hr
-        have ht' : tree'.AllSorted := by
-          split at hr
-          · cases hr; exact ht
-          · exact scanStep_allSorted ht hr
-        split at h
-        · exact walkList_allSorted d cfg fnm children _ _ _ st' ht' h
-        · cases h; exact ht'
+      · split at h
+        · cases h
+        · rename_i tree' links' ignored hr
+          have ht' : tree'.AllSorted := by
+            split at hr
+            · cases hr; exact ht
+            · exact scanStep_allSorted ht hr
+          split at h
+          · exact walkList_allSorted d cfg fnm children _ _ _ st' ht' h
+          · cases h; exact ht'
 theorem walkList_allSorted (d : Defaults) (cfg : Cfg) (fnm : Fnm) :
     ∀ (l : List HNode) (rel : Path) (dirDev : Nat) (st st' : St), st.tree.AllSorted →
       walkList d cfg fnm rel dirDev l st = some st' → st'.tree.AllSorted
